@@ -32,7 +32,10 @@ def make_pool(ns, d):
             f.write(text)
         files[name] = p
         return p
-    ro_text = coll.base_ro()
+    # non-ASCII (BMP and supplementary-plane) and markup-significant text: the output must be the library's
+    # serialisation character for character
+    ro_text = coll.base_ro().replace('RO slug v0', 'RO slug caf\u00e9 \U0001F600 &amp; &lt;x&gt; \u00a35')
+    assert 'caf' in ro_text
     w('ro.mos.xml', ro_text)
     ro = ns.mt.MosFile.from_string(ro_text)
     ro += ns.mt.MosFile.from_string(g.msg_ro_delete(msg_id=1999))
